@@ -74,6 +74,14 @@ Theorem fuel_monotone : forall f f' cfg resolve x, f <= f' ->
 Proof. exact read_fuel_monotone. Qed.
 Print Assumptions fuel_monotone.
 
+(* ... and for the body of a document a fuel above the number of declared
+   general entities always suffices (an open entity cannot be opened again),
+   whatever the external-entity gate does. *)
+Theorem content_fuel_suffices : forall ext fuel d lvl tags l,
+  length (gents d) < fuel -> snd (content ext fuel d [] lvl tags l) <> Fuel.
+Proof. exact FuelProofs.content_fuel_suffices. Qed.
+Print Assumptions content_fuel_suffices.
+
 (* The gate is what protects: the same reader with the feature ON does open
    the file and does include its content (so the theorems above are about
    the flag, not about a reader that could not reach outside anyway). *)
@@ -109,3 +117,30 @@ Qed.
 Example feature_on_differs :
   io_log (read 8 (mkConfig true) xxe_world busy_doc) <> [].
 Proof. vm_compute. discriminate. Qed.
+
+(* the predicates the harness evaluates have teeth: on the same document, an
+   outside access, a marker in the tree, or a tree that is not the model's are
+   each rejected *)
+Definition good_case : case :=
+  mkCase EParseString false false xxe_doc [(1, RText [TText [marker]])]%N
+         (IDoc [(0%nat, 20, [], [97])]%N) [].
+
+Example predicates_accept_good_case :
+  c20_flags_agree good_case = true /\ c20_agrees good_case = true /\ c20_spec_ok good_case = true.
+Proof. vm_compute. repeat split. Qed.
+
+Example spec_rejects_outside_access :
+  c20_spec_ok (mkCase EParseString false false xxe_doc [] (IDoc [(0%nat, 20, [], [97])]%N) [1%N]) = false.
+Proof. vm_compute. reflexivity. Qed.
+
+Example spec_rejects_external_content :
+  c20_spec_ok (mkCase EParseString false false xxe_doc [] (IDoc [(0%nat, 20, [], [97; marker])]%N) []) = false.
+Proof. vm_compute. reflexivity. Qed.
+
+Example agrees_rejects_other_tree :
+  c20_agrees (mkCase EParseString false false xxe_doc [] (IDoc [(0%nat, 20, [], [97; 98])]%N) []) = false.
+Proof. vm_compute. reflexivity. Qed.
+
+Example flags_reject_feature_on :
+  c20_flags_agree (mkCase EDocCacheGet false true xxe_doc [] INone []) = false.
+Proof. vm_compute. reflexivity. Qed.
